@@ -40,6 +40,9 @@ type Options struct {
 	// MinSites: the rewriter must have produced at least this many seams of each kind, else error
 	// ("an expected site is missing because the source was refactored").
 	MinLock, MinSelect, MinGo, MinMap int
+	// LoopYieldFuncs: in functions with these names every `for` body starts with a yield
+	// (extra scheduling points where the code has no synchronisation operation of its own).
+	LoopYieldFuncs []string
 }
 
 // Package is a type-checked repo package.
@@ -130,12 +133,13 @@ type Counts struct {
 }
 
 type rewriter struct {
-	p      *Package
-	opt    Options
-	file   string
-	base   string
-	counts Counts
-	errs   []string
+	p         *Package
+	opt       Options
+	file      string
+	base      string
+	counts    Counts
+	errs      []string
+	loopYield bool // inside a function listed in LoopYieldFuncs
 }
 
 func (r *rewriter) site(pos token.Pos) string {
@@ -284,6 +288,9 @@ func (r *rewriter) scanOwn(n ast.Node, nd *need) {
 					nd.yieldBefore, nd.wokeAfter, nd.why = true, true, "errgroup.Go"
 					return false
 				}
+			case pkg == "golang.org/x/sync/singleflight" && name == "Group" && sel.Sel.Name == "Do":
+				// may block on an in-flight duplicate call inside the library
+				nd.yieldBefore, nd.wokeAfter, nd.why = true, true, "singleflight.Do"
 			case pkg == "sync" && name == "Once" && sel.Sel.Name == "Do":
 				// no seams inside Once.Do: a second caller would block on Once's
 				// internal mutex, which the scheduler cannot see
@@ -393,9 +400,15 @@ func (r *rewriter) stmts(list []ast.Stmt) []ast.Stmt {
 			if s.Init != nil {
 				r.scanOwn(s.Init, &nd)
 			}
-			r.scanOwn(s.Cond, &nd)
-			if nd.wokeAfter {
-				r.errf(pos, "blocking operation in an if header is not supported")
+			var condNeed need
+			r.scanOwn(s.Cond, &condNeed)
+			if condNeed.wokeAfter {
+				r.errf(pos, "blocking operation in an if condition is not supported")
+			}
+			hoist := nd.wokeAfter && s.Init != nil
+			nd.yieldBefore = nd.yieldBefore || condNeed.yieldBefore
+			if nd.why == "" {
+				nd.why = condNeed.why
 			}
 			r.block(s.Body)
 			switch e := s.Else.(type) {
@@ -410,6 +423,14 @@ func (r *rewriter) stmts(list []ast.Stmt) []ast.Stmt {
 					s.Else = &ast.BlockStmt{List: res}
 				}
 			}
+			if hoist && r.opt.Yield {
+				// `if x := blocking(); cond {…}`  →  `{ yield; x := blocking(); woke; if cond {…} }`
+				init := s.Init
+				s.Init = nil
+				out = append(out, &ast.BlockStmt{List: []ast.Stmt{r.yieldStmt(pos, nd.why), init, r.wokeStmt(pos, nd.why), s}})
+				continue
+			}
+			nd.wokeAfter = false
 		case *ast.ForStmt:
 			var hd need
 			if s.Init != nil {
@@ -432,6 +453,9 @@ func (r *rewriter) stmts(list []ast.Stmt) []ast.Stmt {
 			nd = hd
 			nd.wokeAfter = false
 			r.block(s.Body)
+			if r.loopYield && r.opt.Yield {
+				s.Body.List = append([]ast.Stmt{r.yieldStmt(pos, "loop")}, s.Body.List...)
+			}
 		case *ast.RangeStmt:
 			r.scanOwn(s.X, &nd)
 			r.block(s.Body)
@@ -577,7 +601,14 @@ func (p *Package) File(path string, opt Options) ([]byte, Counts, error) {
 	r := &rewriter{p: p, opt: opt, file: path, base: filepath.Base(path)}
 	for _, d := range af.Decls {
 		if fd, ok := d.(*ast.FuncDecl); ok && fd.Body != nil {
+			r.loopYield = false
+			for _, n := range opt.LoopYieldFuncs {
+				if fd.Name.Name == n {
+					r.loopYield = true
+				}
+			}
 			r.block(fd.Body)
+			r.loopYield = false
 		}
 		if gd, ok := d.(*ast.GenDecl); ok {
 			// function literals in package-level var initialisers
